@@ -80,6 +80,15 @@ func main() {
 					return
 				}
 				if vi == 0 {
+					// the same question translated far from the origin (exact in float64): the answer cannot change
+					tr := make(orb.Ring, len(v))
+					for i, p := range v {
+						tr[i] = orb.Point{p[0] + 1048576, p[1] - 1048573}
+					}
+					if got := planar.RingContains(tr, orb.Point{pf[0] + 1048576, pf[1] - 1048573}); got != want {
+						c.Failf("translation", "RingContains(%v, %v) = %v after translating both by (2^20, -2^20+3), %v before", v, pf, got, want)
+						return
+					}
 					// the same ring with spare capacity behind it (a prefix of a longer slice)
 					if got := planar.RingContains(orb.Ring(refgeom.Spare(v)), pf); got != want {
 						c.Failf("layout-dependent", "RingContains(%v, %v) = %v when the ring has spare capacity, %v otherwise", v, pf, got, want)
